@@ -863,6 +863,8 @@ type c09Gen struct {
 	nextID int
 	ops    []string
 	counts []string
+	curN   int // messages / largest UID of the mailbox the SEARCH being generated runs on
+	curU   int
 }
 
 func c09Canon(n string) string {
@@ -1012,17 +1014,85 @@ func (g *c09Gen) genAppend(conn int, name string) {
 	}
 }
 
+// dynSet renders a set containing "*" ("*", "k:*", "*:k", "k,*", "k:m,*" ...) around n.
+func (g *c09Gen) dynSet(n int) string {
+	if n < 1 {
+		n = 1
+	}
+	x := func() int { return 1 + g.r.intn(n+2) }
+	var s string
+	switch g.r.intn(7) {
+	case 0, 1:
+		s = "*"
+	case 2:
+		s = fmt.Sprintf("%d:*", x())
+	case 3:
+		s = fmt.Sprintf("*:%d", x())
+	case 4:
+		s = fmt.Sprintf("%d,*", x())
+	case 5:
+		s = fmt.Sprintf("%d:*", n+1+g.r.intn(8))
+	default:
+		s = fmt.Sprintf("%d:%d,*", n+2, n+4)
+	}
+	v, err := imapwire.ParseSeqSet(s)
+	if err != nil {
+		return "0-0"
+	}
+	return fmtRangesOf(v.String())
+}
+
+// dynNested puts a dynamic sequence / UID set under NOT / OR / a group, `depth` levels deep.
+func (g *c09Gen) dynNested(depth int) []string {
+	r := g.r
+	leaf := func() []string {
+		if r.chance(2, 3) {
+			return []string{"q" + g.dynSet(g.curN)}
+		}
+		return []string{"u" + g.dynSet(g.curU)}
+	}
+	if depth <= 0 {
+		return leaf()
+	}
+	sub := func() []string {
+		if r.chance(2, 3) {
+			return g.dynNested(depth - 1)
+		}
+		return g.key(1)
+	}
+	switch r.intn(5) {
+	case 0, 1:
+		return append([]string{"n"}, g.dynNested(depth-1)...)
+	case 2:
+		return append(append([]string{"o"}, g.dynNested(depth-1)...), sub()...)
+	case 3:
+		return append(append([]string{"o"}, sub()...), g.dynNested(depth-1)...)
+	}
+	out := []string{"("}
+	out = append(out, g.dynNested(depth-1)...)
+	if r.chance(1, 2) {
+		out = append(out, sub()...)
+	}
+	return append(out, ")")
+}
+
 func (g *c09Gen) key(depth int) []string {
 	r := g.r
 	date := func() string { return fmt.Sprint(int64(c09D0) + goZeroUnix + int64(r.intn(5))*86400) }
 	sys := []string{`\Answered`, `\Deleted`, `\Draft`, `\Flagged`, `\Recent`, `\Seen`}
-	switch k := r.intn(22); k {
+	switch k := r.intn(25); k {
 	case 0:
 		return []string{"A"}
 	case 1:
-		return []string{"q" + g.set(3)}
+		if r.chance(1, 2) {
+			return []string{"q" + g.dynSet(g.curN)}
+		}
+		return []string{"q" + g.set(g.curN)}
 	case 2:
-		return []string{"u" + g.set(4)}
+		if r.chance(1, 2) {
+			return []string{"u" + g.dynSet(g.curU)}
+		}
+		return []string{"u" + g.set(g.curU)}
 	case 3:
 		return []string{"f" + hxs(pick(r, sys))}
 	case 4:
@@ -1322,8 +1392,17 @@ func (g *c09Gen) step() {
 			ret = pick(r, []string{"0", "n", "x", "a", "c", "nx", "nxc", "ac", "nxac"})
 		}
 		var ks []string
+		g.curN, g.curU = n, 1
+		if sel >= 0 {
+			g.curU = g.nextUI[sel] - 1
+		}
 		for i, m := 0, 1+r.intn(3); i < m; i++ {
-			ks = append(ks, g.key(2)...)
+			if r.chance(1, 4) {
+				ks = append(ks, g.dynNested(1+r.intn(3))...)
+				g.counts = append(g.counts, "search:dynamic-set-under-not-or-group")
+			} else {
+				ks = append(ks, g.key(2+r.intn(2))...)
+			}
 		}
 		g.add(conn, "SEARCH", append([]string{pick(r, []string{"s", "s", "u"}), ret}, ks...)...)
 	default:
@@ -1377,6 +1456,10 @@ var c09Corpus = []struct {
 	{1, []string{"c1 CREATE 53656e74", "c1 SELECT 494e424f58", "c1 COPY s 5-5 53656e74", "c1 MOVE u 7-7 53656e74", "c1 NOOP"}},
 	{1, []string{"c1 APPEND 494e424f58 _ _ _ 61 0 0", "c1 APPEND 494e424f58 _ _ _ 62 0 0", "c1 APPEND 494e424f58 _ _ _ 63 0 0",
 		"c1 SELECT 494e424f58", "c1 FETCH s 5-7,0-0 UID", "c1 FETCH u 5-0 UID"}},
+	// "*" under NOT / OR / nested groups must be resolved like at top level (seeded change R3-a08-1)
+	{1, []string{"c1 APPEND 494e424f58 _ _ _ 61 0 0", "c1 APPEND 494e424f58 _ _ _ 62 0 0", "c1 APPEND 494e424f58 _ _ _ 63 0 0", "c1 APPEND 494e424f58 _ _ _ 64 0 0",
+		"c1 SELECT 494e424f58", "c1 SEARCH s _ n q0-0", "c1 SEARCH s _ o q1-1 q0-0", "c1 SEARCH s _ n q10-0", "c1 SEARCH u _ n n u0-0",
+		"c1 SEARCH s _ o n ( q0-0 ) n u2-0", "c1 SEARCH u nxc n o q0-2 ( n q3-0 )"}},
 }
 
 func genC09(e *emitter, tier string, seed uint64) {
